@@ -173,9 +173,13 @@ def run(ctx):
     ctx.rule('FD-VALID', 'every test of a descriptor value against a constant is `< 0`, `>= 0` or an (in)equality with a negative code: descriptor 0 is valid and must be closed like any other', floor=6)
     from engine.fdvalid import fd_valid
     fd_valid(ctx, prog)
+    from engine.fixture import generic_fixture
+    generic_fixture(ctx, [('FD-VALID', lambda c_, p_: fd_valid(c_, p_, minimum=0), 'bad_fd')])
 
     ctx.rule('IO-COUNT', 'in every loop that works off a remaining count R (R -= V in the body), each psf_fread / psf_fwrite of the body transfers exactly V, or R is decremented by the call\'s own result: '
              'what is transferred is what is accounted for (the pipe route of header_seek skips by reading and must not swallow bytes of the following chunk)', floor=100)
     from engine.iocount import io_count
     ctx.require(io_count(ctx, prog) >= 100, 'too few accounted transfers found')
+    from engine.fixture import generic_fixture as _gf
+    _gf(ctx, [('IO-COUNT', io_count, 'bad_iocount')])
 
